@@ -293,6 +293,8 @@ def layers(tier):
                     'filter_tables on UNIV(%d), windowed universes, packed tiny tables and (EDIT_DISTANCE) STR({a,b},l) under q-gram bags: Position subset of '
                     'Prefix and of Size (same parameters); no listed pair without a common token' % Kt,
                     min_nontrivial=1000, chunksize=2))
+    from checks.configx import filter_config_layer
+    Ls.append(filter_config_layer(['C14'], quick))
     return Ls
 
 
